@@ -92,6 +92,7 @@ flow main
   match Never()
 """),
 ]
+RICH_RETURNS = [1, "x", None, [1, [2, 3]], {"k": [1, 2]}, (1, 2), {1, "a"}, {"s": {2, 3}}]
 RICH_EVENTS = [{"type": "E1"}, {"type": "E1", "p": 1}, {"type": "E1", "p": 2}, {"type": "E2"}, {"type": "E2", "q": "abc"},
                {"type": "E3"}, {"type": "E3", "p": 1}]
 
@@ -136,6 +137,9 @@ def _worker(job):
             for _ in range(walk_len):
                 acts = v2corpus.action_events(pending)
                 ev = rnd.choice(acts) if acts and rnd.random() < 0.35 else rnd.choice(static)
+                if pid.startswith("rich") and "return_value" in ev:
+                    # what an action hands back is kept by the interpreter (action context, variables): any plain data
+                    ev = dict(ev, return_value=rnd.choice(RICH_RETURNS))
                 hist.append(dict(ev))
                 colang2._scripted.picks = [w % 2] * 16
                 clock.offset = 0.0
